@@ -8,6 +8,7 @@ package mtproto
 import (
 	"context"
 	"crypto/rsa"
+	"encoding/binary"
 	"io"
 	"reflect"
 	"sync"
@@ -320,7 +321,9 @@ func (m *MTProto) readMsg() error {
 func (m *MTProto) processResponse(msg messages.Common) error {
 	var data tl.Object
 	var err error
-	if et, ok := m.expectedTypes.Get(msg.GetMsgID()); ok && len(et) > 0 {
+	// hints for decoder are stored by id of the REQUEST, so we need to know which request this message answers
+	// to, before decoding it: rpc_result is crc, req_msg_id:long and then result itself
+	if et, ok := m.expectedTypes.Get(rpcResultRequestID(msg.GetMsg())); ok && len(et) > 0 {
 		data, err = tl.DecodeUnknownObject(msg.GetMsg(), et...)
 	} else {
 		data, err = tl.DecodeUnknownObject(msg.GetMsg())
@@ -404,6 +407,15 @@ messageTypeSwitching:
 	}
 
 	return nil
+}
+
+// rpcResultRequestID returns id of the request, if message is rpc_result, otherwise 0
+func rpcResultRequestID(msg []byte) int {
+	const headerLen = tl.WordLen + tl.LongLen // crc + req_msg_id
+	if len(msg) < headerLen || binary.LittleEndian.Uint32(msg) != objects.CrcRpcResult {
+		return 0
+	}
+	return int(int64(binary.LittleEndian.Uint64(msg[tl.WordLen:headerLen])))
 }
 
 // tryToProcessErr пытается автоматически решить ошибку полученную от сервера. в случае успеха вернет nil,
